@@ -2,7 +2,7 @@
 from common import *
 import schema
 
-THEOREMS = ['readIdent_canonical', 'readLen_canonical', 'der_no_indefinite', 'header_canonical', 'der_parse_canonical', 'parseValue_canonical', 'parseAll_canonical', 'der_injective', 'decode_der_canonical', 'decode_der_injective', 'decode_der_canonical_runG', 'der_reparse', 'der_reencode_accepted', 'leaf_int_canonical', 'leaf_bool_canonical', 'leaf_null_canonical', 'leaf_integer_canonical', 'leaf_unsigned_canonical', 'leaf_oid_canonical', 'leaf_bits_canonical', 'leaf_octets_canonical', 'frame_inv', 'der_prim_framing', 'der_prim_canonical', 'canon_cons', 'canon_seq', 'der_canonical', 'top_canonical', 'top_canonical_runG', 'typed_injective', 'typed_injective_full', 'reencode_decodes', 'sample_canonical', 'canon_congr', 'Bcder.Props.C05b.restricted_run_inv', 'Bcder.Props.C05b.primOnly_restricted', 'Bcder.Props.C05b.leaf_restricted_canonical', 'Bcder.Props.C05b.restricted_returns_valid', 'Bcder.Props.C05b.write_octetString_der', 'Bcder.Props.C05b.write_octetSlice', 'Bcder.Props.C05b.write_bitSlice', 'Bcder.Props.C05b.derCodec_octetString', 'Bcder.Props.C05b.derCodec_restricted', 'Bcder.Props.C05b.derCodec_bitSlice', 'Bcder.Props.C05b.printable_canonical', 'Bcder.Props.C05b.untagged_some_ident', 'Bcder.Props.C05b.canon_untagged', 'Bcder.Props.C05b.canon_takeValue', 'Bcder.Props.C05b.canon_alt', 'Bcder.Props.C05b.choice_canonical']
+THEOREMS = ['readIdent_canonical', 'readLen_canonical', 'der_no_indefinite', 'header_canonical', 'der_parse_canonical', 'parseValue_canonical', 'parseAll_canonical', 'der_injective', 'decode_der_canonical', 'decode_der_injective', 'decode_der_canonical_runG', 'der_reparse', 'der_reencode_accepted', 'leaf_int_canonical', 'leaf_bool_canonical', 'leaf_null_canonical', 'leaf_integer_canonical', 'leaf_unsigned_canonical', 'leaf_oid_canonical', 'leaf_bits_canonical', 'leaf_octets_canonical', 'frame_inv', 'der_prim_framing', 'der_prim_canonical', 'canon_cons', 'canon_seq', 'der_canonical', 'top_canonical', 'top_canonical_runG', 'typed_injective', 'typed_injective_full', 'reencode_decodes', 'sample_canonical', 'canon_congr', 'Bcder.Props.C05b.restricted_run_inv', 'Bcder.Props.C05b.primOnly_restricted', 'Bcder.Props.C05b.leaf_restricted_canonical', 'Bcder.Props.C05b.restricted_returns_valid', 'Bcder.Props.C05b.write_octetString_der', 'Bcder.Props.C05b.write_octetSlice', 'Bcder.Props.C05b.write_bitSlice', 'Bcder.Props.C05b.derCodec_octetString', 'Bcder.Props.C05b.derCodec_restricted', 'Bcder.Props.C05b.derCodec_bitSlice', 'Bcder.Props.C05b.printable_canonical', 'Bcder.Props.C05b.untagged_some_ident', 'Bcder.Props.C05b.canon_untagged', 'Bcder.Props.C05b.canon_takeValue', 'Bcder.Props.C05b.canon_alt', 'Bcder.Props.C05b.choice_canonical', 'Bcder.Props.C05b.canon_captureOne', 'Bcder.Props.C05b.derCodec_captured_sample']
 EXTRA_MODULES = ['C05b']
 RULE = ("valid DER encodings of random schemas (all leaf types, SEQUENCE/SET, explicit/implicit tags, OPTIONAL) and systematically "
         "de-canonicalised variants (long-form and non-minimal lengths, indefinite forms, BOOLEAN 01, padded integers, constructed strings, "
@@ -237,5 +237,5 @@ def nontrivial(req, ans):
     return req.startswith("run der") and ans.startswith("ok ")
 
 LEVEL = "proof"
-LEVEL_TEXT = ("Lean 4 theorems for ALL inputs. Headers: the reference readers accept identifier octets and - in DER/CER - definite length octets only in their canonical form (readIdent_canonical, readLen_canonical), DER rejects the indefinite form (der_no_indefinite). Structure: whatever the grammar and, through C02, the generic reader accept in DER mode is the canonical encoding treesBytes of the trees returned, so two different octet strings never decode to equal trees, and the canonical octets are accepted again (der_parse_canonical, der_injective, decode_der_canonical, decode_der_injective, der_reparse, der_reencode_accepted). Typed leaves: for every supported primitive type the accepted content is exactly what the encoder writes for the decoded value (leaf_*_canonical: all ten fixed-width INTEGER types, BOOLEAN, NULL, Integer, Unsigned, OBJECT IDENTIFIER, BIT STRING, OCTET STRING). Typed framing and composition: if a tag-selective read returns a value in DER mode, the octets it consumed are the canonical header followed by exactly the content window (frame_inv, der_prim_framing, der_prim_canonical), and by induction over the DerCodec family (primitive / tagged constructed / sequence / OPTIONAL present or absent / Choice / mapped) the octets consumed by any such decoder are exactly Enc.write .der of the decoded value (der_canonical, top_canonical, typed_injective_full, reencode_decodes). C05b: the four restricted character strings are leaves (primOnly_restricted, leaf_restricted_canonical, restricted_returns_valid: accepted = primitive form, content unchanged, a string of the character set), and the encoders the crate really uses for string values - OctetStringEncoder (OctetString / RestrictedString::encode_as), OctetSliceEncoder, BitSliceEncoder - write what Primitive<...> writes for every value a DER decoder can return, so they are in the family too (DerCodec.congr, canon_congr; derCodec_octetString, derCodec_restricted, derCodec_bitSlice, printable_canonical). The mandatory untagged readers are canonical whenever, for every tag, the tag-selective reader with the closure applied to that tag is (canon_untagged via C04b.untagged_eq; choice_canonical: a CHOICE read with take_value). Correspondence: valid DER of random schemas and systematically de-canonicalised variants (every definite length form around 127/128/255/256/65535/65536, indefinite forms, BOOLEAN 01, padded integers, constructed strings, non-minimal identifiers), each accepted variant re-encoded with the real encoders and compared octet for octet, over slice and stingy sources.")
-LEVEL_NOTE = ("Trusted: Lean 4.33 kernel; axioms propext, Classical.choice, Quot.sound only; the hand-written model tied to /repo on every run by differential correspondence through the real decoders and encoders. In the typed algebra primitive closures must be window programs (no limit changes, no capture: every leaf accessor is, Lemmas/Window). Not in the algebra (covered structurally by the grammar theorems and by the correspondence check): the optional untagged readers (in an indefinite context they consume the end-of-contents marker when reporting absence; the mandatory ones - take_value, take_primitive, take_constructed - are in: canon_untagged, canon_takeValue, choice_canonical) and Captured as leaves (restricted character strings and the OctetStringEncoder / OctetSliceEncoder / BitSliceEncoder re-encoders are in it: C05b, DerCodec.congr), SET OF ordering and DEFAULT omission (the crate has no such notion). Unused bits of a BIT STRING are kept verbatim by the value.")
+LEVEL_TEXT = ("Lean 4 theorems for ALL inputs. Headers: the reference readers accept identifier octets and - in DER/CER - definite length octets only in their canonical form (readIdent_canonical, readLen_canonical), DER rejects the indefinite form (der_no_indefinite). Structure: whatever the grammar and, through C02, the generic reader accept in DER mode is the canonical encoding treesBytes of the trees returned, so two different octet strings never decode to equal trees, and the canonical octets are accepted again (der_parse_canonical, der_injective, decode_der_canonical, decode_der_injective, der_reparse, der_reencode_accepted). Typed leaves: for every supported primitive type the accepted content is exactly what the encoder writes for the decoded value (leaf_*_canonical: all ten fixed-width INTEGER types, BOOLEAN, NULL, Integer, Unsigned, OBJECT IDENTIFIER, BIT STRING, OCTET STRING). Typed framing and composition: if a tag-selective read returns a value in DER mode, the octets it consumed are the canonical header followed by exactly the content window (frame_inv, der_prim_framing, der_prim_canonical), and by induction over the DerCodec family (primitive / tagged constructed / sequence / OPTIONAL present or absent / Choice / mapped) the octets consumed by any such decoder are exactly Enc.write .der of the decoded value (der_canonical, top_canonical, typed_injective_full, reencode_decodes). C05b: the four restricted character strings are leaves (primOnly_restricted, leaf_restricted_canonical, restricted_returns_valid: accepted = primitive form, content unchanged, a string of the character set), and the encoders the crate really uses for string values - OctetStringEncoder (OctetString / RestrictedString::encode_as), OctetSliceEncoder, BitSliceEncoder - write what Primitive<...> writes for every value a DER decoder can return, so they are in the family too (DerCodec.congr, canon_congr; derCodec_octetString, derCodec_restricted, derCodec_bitSlice, printable_canonical). The mandatory untagged readers are canonical whenever, for every tag, the tag-selective reader with the closure applied to that tag is (canon_untagged via C04b.untagged_eq; choice_canonical: a CHOICE read with take_value). capture_one is canonical against Captured's copying encoder (canon_captureOne, from C11b.capture_one_value). Correspondence: valid DER of random schemas and systematically de-canonicalised variants (every definite length form around 127/128/255/256/65535/65536, indefinite forms, BOOLEAN 01, padded integers, constructed strings, non-minimal identifiers), each accepted variant re-encoded with the real encoders and compared octet for octet, over slice and stingy sources.")
+LEVEL_NOTE = ("Trusted: Lean 4.33 kernel; axioms propext, Classical.choice, Quot.sound only; the hand-written model tied to /repo on every run by differential correspondence through the real decoders and encoders. In the typed algebra primitive closures must be window programs (no limit changes, no capture: every leaf accessor is, Lemmas/Window). Not in the algebra (covered structurally by the grammar theorems and by the correspondence check): the optional untagged readers (in an indefinite context they consume the end-of-contents marker when reporting absence; the mandatory ones - take_value, take_primitive, take_constructed - are in: canon_untagged, canon_takeValue, choice_canonical; Captured values read by capture_one are in: canon_captureOne, DerCodec.sem) (restricted character strings and the OctetStringEncoder / OctetSliceEncoder / BitSliceEncoder re-encoders are in it: C05b, DerCodec.congr), SET OF ordering and DEFAULT omission (the crate has no such notion). Unused bits of a BIT STRING are kept verbatim by the value.")
